@@ -2,7 +2,7 @@
   Drv/Json.lean — ops of the `Json` layer.
   JVal on the wire:  null | true/false | "s" | {"i": n} | {"f": "<repr>"} | [..] | {"o": [[key, v], ..]}
   PVal on the wire:  null | true/false | "s" | {"i": n} | {"f": tok} | {"list": [..]} | {"dict": [[k, v], ..]}
-                     | {"f64": [tok..]} | {"nd": [..]} | {"dt": tok} | {"k": "na" | "npscalar" | "other"}
+                     | {"f64": [tok..]} | {"nd": [..]} | {"dt": tok} | {"np": <item()>} | {"k": "na" | "other"}
   Val on the wire:   "s" | true/false | {"f": tok} | {"i": n} | {"d": tok}
 -/
 import Drv.Base
@@ -69,6 +69,9 @@ partial def pvalOfJson (j : Json) : Except String Pdt.Json.PVal :=
     match j.getObjVal? "f64" with
     | .ok v => do pure (.f64arr (← (← v.getArr?).toList.mapM fun x => do pure (← x.getStr?).toList))
     | .error _ =>
+    match j.getObjVal? "np" with
+    | .ok v => do pure (.npscalar (← pvalOfJson v))
+    | .error _ =>
     match j.getObjVal? "dict" with
     | .ok v => do
       let kvs ← (← v.getArr?).toList.mapM fun p => do
@@ -79,7 +82,7 @@ partial def pvalOfJson (j : Json) : Except String Pdt.Json.PVal :=
     | .error _ =>
     match j.getObjVal? "k" with
     | .ok (.str "na") => pure .na
-    | .ok (.str "npscalar") => pure .npscalar
+    | .ok (.str "npscalar") => throw "npscalar without item"
     | .ok (.str "other") => pure .other
     | _ => throw "bad pval object"
   | _ => throw "bad pval"
